@@ -3,10 +3,10 @@ CONSTANTS
   NLanes = 2
   LineSize = 8
   Deviations <- NoDev
-  Window = 2
-  LastIsLast = FALSE
+  Window = 4
+  LastIsLast = TRUE
   MemSize = 24
-  MCOps <- OpsDw
+  MCOps <- OpsAll
   MCAddrs <- Addrs7
 INVARIANTS TypeOK WindowRespected OneLast NoCrash TxnSound RegsCorrect MemCorrect CountersZero CompletesOnce CompletesAfterLast
 CHECK_DEADLOCK FALSE
